@@ -130,6 +130,8 @@ type hostileLen struct {
 var hostileLens = []hostileLen{
 	{127, 1 << 16}, {127, 1<<31 - 1}, {127, 1 << 31}, {127, 1 << 32}, {127, 1 << 47}, {127, 1 << 62}, {127, 1<<63 - 1}, {127, 1 << 63},
 	{127, ^uint64(0)}, {127, 0}, {127, 125}, {127, 0xFFFF}, {127, capLen}, {127, capLen + 1},
+	// large but below inProcCap: an allocation sized by them is survivable and stands out against the per-case budget
+	{127, 1<<24 + 1}, {127, 48 << 20}, {127, inProcCap}, {127, 1 << 28},
 	{126, 0}, {126, 125}, {126, 126}, {126, 0xFFFF}, {126, 1000},
 }
 
